@@ -17,6 +17,9 @@ pub fn run_property(id: &str, tier: Tier) -> i32 {
     match id {
         "C01" => props::c01::run(tier),
         "C04" => props::c04::run(tier),
+        "C05" => props::c05::run(tier),
+        "C06" => props::c06::run(tier),
+        "C07" => props::c07::run(tier),
         _ => {
             eprintln!("unknown property {id}");
             2
